@@ -18,11 +18,22 @@ def setup():
         sh('git checkout -q --detach $(git -C /repo rev-parse HEAD) && git checkout -- . && git clean -fdq -e target')
 
 def place_demo(d, name):
+    build = 'cargo build --offline -j 8 --bin risinglight'
     if os.path.exists(os.path.join(d, 'demo.sh')):
+        txt = open(os.path.join(d, 'demo.sh')).read()
+        m = re.search(r'_out/(\d+)/', txt)
+        if m:
+            # written to run from the worktree root with its files under _out/<n>/
+            dst = os.path.join(WT, '_out', m.group(1))
+            shutil.rmtree(dst, ignore_errors=True)
+            shutil.copytree(d, dst)
+            return f'{build} && sh _out/{m.group(1)}/demo.sh', lambda: shutil.rmtree(os.path.join(WT, '_out'), ignore_errors=True)
         # a shell demonstration that drives the CLI binary (argument 1 = the binary)
-        return f'cargo build --offline -j 8 --bin risinglight && bash {d}/demo.sh {WT}/target/debug/risinglight', lambda: None
+        return f'{build} && bash {d}/demo.sh {WT}/target/debug/risinglight', lambda: None
+    if os.path.exists(os.path.join(d, 'run_demo.sh')):
+        return f'{build} && BIN={WT}/target/debug/risinglight sh {d}/run_demo.sh', lambda: None
     demo = open(os.path.join(d, 'demo.rs')).read()
-    m = re.search(r'append to (src/\S+?\.rs)', demo)
+    m = re.search(r'(src/\S+?\.rs)', '\n'.join(demo.split('\n')[:6]))
     if name.startswith('C06') and m and name not in ('C06-1', 'C06-2', 'C06-3', 'C06-4', 'C06-5', 'C06-6'):
         target, filt = m.group(1), re.search(r'^mod (\w+)', demo, flags=re.M).group(1)
         open(os.path.join(WT, target), 'a').write('\n' + demo)
